@@ -7,4 +7,5 @@ INVARIANT TypeOK
 INVARIANT NoLostWakeup
 INVARIANT ReportedIsSuspended
 INVARIANT BreakpointsSuspend
+PROPERTY StopReleasesAll
 CHECK_DEADLOCK FALSE
